@@ -1142,6 +1142,10 @@ probe_file(kdump_ctx_t *ctx, unsigned fidx, struct disk_set_info *dsi,
 
 	status = fcache_pread(ctx->shared->fcache, &sph, sizeof sph,
 			      fidx, DEFAULT_BLOCK_SIZE);
+	if (status == KDUMP_ERR_EOF)
+		/* Too short for a media backup. */
+		return set_error(ctx, KDUMP_NOPROBE,
+				 "Unrecognized SADUMP signature");
 	if (status != KDUMP_OK)
 		goto err;
 
